@@ -127,6 +127,10 @@ class SharedMemoryFileBufferedCollection(FileBufferedCollection):
                     if cached_data["modified"]:
                         if cached_data["metadata"] != self._get_file_metadata():
                             raise MetadataError(self._filename, cached_data["contents"])
+                        # The shared data store is what must be written; this
+                        # instance may never have been pointed at it if only
+                        # other collections bound to the file were used.
+                        self._data = cached_data["contents"]
                         self._save_to_resource()
                 finally:
                     # Whether or not an error was raised, the cache must be
